@@ -27,3 +27,12 @@ def anf_post(c, A, K):
         c.forall(["id"], lambda m: z3.Implies(z3.And(sel(Hd.nak, m), m != n), rec_eq(c, sel(S.NAh, m), sel(S.NAv, m), sel(Hd.NAh, m), sel(Hd.NAv, m))))))]
 
 
+
+
+def node_of(c, x):
+    """The node an element of add_nodes_from's argument stands for: itself, or the first entry of a (node, attrs) pair."""
+    return z3.If(c.hashable(x), x, c.sub(x, z3.IntVal(0)))
+
+
+def nodes_of(c, D):
+    return c.setof(lambda n: c.exists(["id"], lambda x: z3.And(sel(D, x), n == node_of(c, x))))
